@@ -348,6 +348,17 @@ class Ctx:
     # -- proof step -----------------------------------------------------------------
     def proof(self) -> dict:
         r = prove(self.prop, coqchk=not self.quick)
+        try:
+            sys.path.insert(0, os.path.join(VERIF, "tools"))
+            import fingerprint
+            ch = fingerprint.changed_for(self.prop, REPO)
+            if ch is not None:
+                self.extra["modelled_functions_changed_since_transcription"] = ch[0]
+                self.trusted_base.append(
+                    f"hand-written model transcribes {ch[1]} anchored functions; AST changed since transcription: "
+                    + (", ".join(ch[0]) if ch[0] else "none") + " (informational; the correspondence decides)")
+        except Exception as e:  # informational only
+            self.extra["fingerprint_error"] = repr(e)
         if "coqchk" in r:
             self.extra["coqchk"] = r["coqchk"]
             if r["coqchk"]["exit"] == 0:
